@@ -486,7 +486,7 @@ fn interleaved_stream(ipfix: bool, i: u64) -> (Vec<Vec<u8>>, Vec<u8>) {
     let full = subset_fields(1, 1, 127, 0);
     let sub = subset_fields(1, 1, 3, 1);
     let mut protos = vec![];
-    let mut body = |fields: &[FieldSpec], salt: usize, nrec: usize, protos: &mut Vec<u8>| -> Vec<u8> {
+    let body = |fields: &[FieldSpec], salt: usize, nrec: usize, protos: &mut Vec<u8>| -> Vec<u8> {
         let mut b = vec![];
         for r in 0..nrec {
             for (k, f) in fields.iter().enumerate() {
@@ -551,6 +551,42 @@ fn interleaved_stream(ipfix: bool, i: u64) -> (Vec<Vec<u8>>, Vec<u8>) {
         }
     }
     calls.push(if ipfix { ipfix_message(&IpfixMsg::new(ipsets)) } else { v9_packet(&V9Pkt::new(v9sets)) });
+    (calls, protos)
+}
+
+/// elements that RESEMBLE a projected one but are not it (absolute and delta times, post-NAT addresses and ports,
+/// post-MACs, ICMP / IGMP types, transport-specific ports): they never feed the view
+const DISTRACTORS: [(u16, u16); 18] = [(150, 4), (151, 4), (152, 8), (153, 8), (154, 8), (155, 8), (225, 4), (226, 4), (227, 2), (228, 2), (57, 6), (81, 6), (180, 2), (181, 2), (182, 2), (183, 2), (32, 2), (176, 1)];
+
+/// shape 0: the distractor alone (with one unrelated field); 1: the full projected template with the distractor behind
+/// it; 2: the distractor in front of the full projected template
+fn distractor_stream(ipfix: bool, i: u64) -> (Vec<Vec<u8>>, Vec<u8>) {
+    let d = digits(i, &[DISTRACTORS.len() as u64, 3]);
+    let x = fs(DISTRACTORS[d[0] as usize].0, DISTRACTORS[d[0] as usize].1);
+    let full = subset_fields(1, 1, 127, 0);
+    let fields: Vec<FieldSpec> = match d[1] {
+        0 => vec![x, fs(2, 2)],
+        1 => full.iter().cloned().chain([x]).collect(),
+        _ => [x].into_iter().chain(full.iter().cloned()).collect(),
+    };
+    let mut protos = vec![];
+    let mut body = vec![];
+    for r in 0..2 {
+        for (k, f) in fields.iter().enumerate() {
+            if f.ty == 4 {
+                let pv = [6u8, 17][r];
+                protos.push(pv);
+                body.push(pv);
+            } else {
+                body.extend(crate::alphabet::rec_value(r + 2, k, f.len as usize));
+            }
+        }
+    }
+    let calls = if ipfix {
+        vec![ipfix_message(&IpfixMsg::new(vec![IpfixSet::Tpl(vec![IpfixTpl { id: 256, fields }], 0), IpfixSet::Data(256, body)]))]
+    } else {
+        vec![v9_packet(&V9Pkt::new(vec![V9Set::Tpl(vec![V9Tpl { id: 256, fields }], 0), V9Set::Data(256, body)]))]
+    };
     (calls, protos)
 }
 
@@ -655,6 +691,18 @@ pub fn spaces(tier: &str) -> Vec<Box<dyn Space>> {
             move |i| super::stream::desc_calls(&boundary_stream(ipfix, i).0),
         ));
     }
+    // look-alike elements that must not feed the view
+    for ipfix in [false, true] {
+        v.push(space(
+            &format!("{}-look-alike-elements x 3 template shapes", if ipfix { "ipfix" } else { "v9" }),
+            DISTRACTORS.len() as u64 * 3,
+            move |i| {
+                let (calls, protos) = distractor_stream(ipfix, i);
+                judge_stream(&calls, &protos)
+            },
+            move |i| super::stream::desc_calls(&distractor_stream(ipfix, i).0),
+        ));
+    }
     // data sets before, between and behind template / options-template / options-data sets of the same packet
     for ipfix in [false, true] {
         let n = list_count(6, 4) * 2;
@@ -707,7 +755,7 @@ pub fn run(tier: &str) -> i32 {
         prop: "C13".into(),
         tier: tier.into(),
         level: "model_checking",
-        rule: "V5/V7: walking byte over a 3-record packet and every materialised record count; V9 and IPFIX: templates made of EVERY subset of the projected fields (source/destination address each in {absent, IPv4, IPv6, both}, ports, protocol, first, last, two MACs = 2048 subsets) in three orders with two unrelated fields, 1..=3 records, 1..=2 data sets; every sequence of <= 4 sets over {two templates, data for each, options template, options data} in one packet (data sets before, between and behind the others; definitions in the packet or cached); every value of the class value menus (range thresholds, special-purpose addresses, all 256 protocol numbers) in every projected field in three template shapes; flattening helper over all chains of <=3 (thorough 5) packets of a 18-packet menu x 4 prior cache states. Oracle: projection computed from the reference decode (one flow per record, in order, member = decoded field, None iff the template lacks it). Distinct by the hash of the returned flows".into(),
+        rule: "V5/V7: walking byte over a 3-record packet and every materialised record count; V9 and IPFIX: templates made of EVERY subset of the projected fields (source/destination address each in {absent, IPv4, IPv6, both}, ports, protocol, first, last, two MACs = 2048 subsets) in three orders with two unrelated fields, 1..=3 records, 1..=2 data sets; 18 look-alike elements (absolute and delta times, post-NAT addresses and ports, post-MACs, transport-specific ports) alone, behind and in front of the full projected template; every sequence of <= 4 sets over {two templates, data for each, options template, options data} in one packet (data sets before, between and behind the others; definitions in the packet or cached); every value of the class value menus (range thresholds, special-purpose addresses, all 256 protocol numbers) in every projected field in three template shapes; flattening helper over all chains of <=3 (thorough 5) packets of a 18-packet menu x 4 prior cache states. Oracle: projection computed from the reference decode (one flow per record, in order, member = decoded field, None iff the template lacks it). Distinct by the hash of the returned flows".into(),
         bounds: json!({"subsets": 2048, "orders": 3, "records": "1..=3", "data_sets": "1..=2"}),
         assumptions: vec!["when a record carries both an IPv4 and an IPv6 address of the same direction the IPv4 one is projected".into(), "V5/V7 protocol name = the name the decoded record carries (its correctness is C03's subject)".into()],
         trusted_base: vec!["refmodel.rs".into(), "c13::project".into()],
